@@ -61,18 +61,24 @@ def sample_path(pattern):
 class Check(PropertyCheck):
     prop = "C46"
     design_ref = "§5 C46"
-    level_text = ("Lean theorems (decide +kernel over the route table regenerated from the live Application, plus case analysis of "
-                  "the request model): every implemented method of every app.handlers row is wrapped by _require_auth; with no "
-                  "valid credential no handler runs on any route/method/Sec-Fetch-Site/XSRF state and an implemented, gate-passing "
-                  "method gets exactly the wrapper's 403; non-safe methods need a matching XSRF token; cross-site non-safe requests "
-                  "never reach a handler. The request model (tornado _execute order + _require_auth) is tied to the real "
-                  "Application by an in-process sweep of routes x methods x credential forms x Sec-Fetch-Site x XSRF states.")
-    level_note = ("tornado's XSRF comparison, signed-cookie verification and URL routing are not modelled: they are abstracted "
-                  "as xsrfOk / cookieValid / the route row and exercised for real in the sweep; WebAuth.is_valid_password is "
-                  "abstracted as valid/invalid; the sequence cases exercise all three of its branches (generated token, plaintext, argon2 hash with minimal cost parameters) including runtime changes of web_password. A session cookie issued before a password rotation stays valid in the code (it is signed with the Application's cookie_secret, not derived from the password); the statement's 'valid session cookie' does not demand revocation, so the oracle neither demands nor forbids it and the tie records the behaviour. Static "
-                  "asset rules are outside the authenticated table by design (see module docstring). The cross-site refusal is "
-                  "implemented by raising tornado.httpclient.HTTPError, which tornado turns into status 500, not 403 — a refusal, "
-                  "recorded as outcome `cross-site`. 'GET/HEAD/OPTIONS handlers do not change state' is checked by the sweep only.")
+    level_text = ("Lean theorems: (a) decide +kernel over the route table regenerated from the live Application: all_methods_wrapped, "
+                  "websocket_requires_auth, no_pre_auth_hooks, non_app_routes_are_static; (b) the abstract request model (tornado "
+                  "_execute order + _require_auth): no_credential_403_and_handler_not_run, no_credential_is_403, "
+                  "state_changing_requires_xsrf, cross_site_refused; (c) the credential checks as code - WebAuth.configure / "
+                  "is_valid_password (token, plaintext, argon2 branches), the wrapper's Authorization/token extraction on the raw "
+                  "header text - over histories of password changes and requests: handler_needs_credential (any world, any header "
+                  "text, any argon2 answer), issued_cookie_provenance (induction over the history: every session cookie was issued to "
+                  "a request carrying the then-valid password), hist_no_credential_no_handler, rotation_revokes_old_password, "
+                  "serveC_eq_serve (the raw model refines the abstract one). Both models are tied to the real Application by the "
+                  "in-process sweep (routes x methods x credential forms x Sec-Fetch-Site x XSRF) and by rotation sequences.")
+    level_note = ("argon2 (verify / extract_parameters) is a parameter of the model (answers supplied per request); tornado's XSRF "
+                  "comparison, URL routing and signed-cookie verification are abstracted (xsrfOk, the route row, 'a presented cookie "
+                  "verifies iff this Application issued it') and exercised for real in the sweep. A session cookie issued before a "
+                  "password rotation stays valid in the code and in the model (it is signed with the Application's cookie_secret); "
+                  "the statement's 'valid session cookie' does not demand revocation, so the oracle neither demands nor forbids it. "
+                  "Static asset rules are outside the authenticated table by design (see module docstring). The cross-site refusal "
+                  "raises tornado.httpclient.HTTPError, which tornado turns into status 500, not 403 - a refusal, outcome "
+                  "`cross-site`. 'GET/HEAD/OPTIONS handlers do not change state' is checked by the sweep only.")
     technique = "Lean 4 proof (decide +kernel over generated route table + case analysis) + exhaustive in-process request sweep"
     rule = ("core: every route x 8 methods x {no credential, valid bearer} x {Sec-Fetch-Site absent, cross-site} x {no XSRF, "
             "matching XSRF}; then (quick: random sample, thorough: full product) of route x method x 19 credential forms x 6 "
